@@ -21,7 +21,7 @@ def main():
     for d in sorted(glob.glob(os.path.join(wt, "_seeded", "*"))):
         name = os.path.basename(d)
         patch = os.path.join(d, "patch.diff")
-        demos = [f for f in os.listdir(d) if f.endswith(".rs")]
+        demos = [f for f in os.listdir(d) if f.endswith(".rs")] or [f for f in os.listdir(d) if f.endswith(".sh")]
         if not os.path.exists(patch) or not demos:
             print(f"[{name}] incomplete: skipped"); continue
         demo = os.path.join(d, demos[0])
@@ -32,12 +32,24 @@ def main():
             print(f"[{name}] patch does not apply: {out[:200]}"); continue
         rc, out = sh("cargo test --workspace --no-fail-fast --offline 2>&1 | grep -E '^test result|FAILED|^error' ", cwd=wt, env=env)
         res["suite_passes_with_patch"] = ("FAILED" not in out and "failed; " in out and all(" 0 failed" in l for l in out.splitlines() if l.startswith("test result")) and "error" not in out)
-        shutil.copy(demo, os.path.join(wt, "tests", "demo_seeded.rs"))
-        rc1, out1 = sh("cargo test --offline --test demo_seeded 2>&1 | tail -5", cwd=wt, env=env)
-        res["demo_fails_with_patch"] = "test result: FAILED" in out1 or "panicked" in out1
-        sh("git checkout -- src Cargo.toml", cwd=wt)
-        rc2, out2 = sh("cargo test --offline --test demo_seeded 2>&1 | tail -5", cwd=wt, env=env)
-        res["demo_passes_without_patch"] = "test result: ok" in out2
+        if demo.endswith(".sh"):
+            run_demo = lambda: sh(f"bash {demo} {wt} > /tmp/wt/demo_out.txt 2>&1; echo DEMO_RC=$?", cwd=wt, env=env)
+            _, out1 = run_demo()
+            res["demo_fails_with_patch"] = "DEMO_RC=0" not in out1
+            sh("git checkout -- src Cargo.toml", cwd=wt)
+            _, out2 = run_demo()
+            res["demo_passes_without_patch"] = "DEMO_RC=0" in out2
+        else:
+            feats = ""
+            txt = open(demo).read()
+            if "serde" in txt or "toml" in txt:
+                feats = "--features serde"
+            shutil.copy(demo, os.path.join(wt, "tests", "demo_seeded.rs"))
+            rc1, out1 = sh(f"cargo test --offline {feats} --test demo_seeded 2>&1 | tail -5", cwd=wt, env=env)
+            res["demo_fails_with_patch"] = "test result: FAILED" in out1 or "panicked" in out1
+            sh("git checkout -- src Cargo.toml", cwd=wt)
+            rc2, out2 = sh(f"cargo test --offline {feats} --test demo_seeded 2>&1 | tail -5", cwd=wt, env=env)
+            res["demo_passes_without_patch"] = "test result: ok" in out2
         sh("rm -f tests/demo_seeded.rs && git checkout -- .", cwd=wt)
         # run the checks against the patch applied to /repo
         rc, out = sh(f"/verif/tools/try_patch.sh {patch} {' '.join(checks)}", cwd="/verif")
